@@ -136,6 +136,21 @@ def run(ck):
             dev = numpy.abs(numpy.array(RT_o.data) - numpy.array(RT_t.data)).max()
         if dev > 1e-9 * numpy.abs(numpy.array(RT_t.data)).max():
             ck.fail("convert:ops-to-tensor:context", "converted tensor and direct tensor differ inside eigenbasis_of", inp, float(dev))
+        # a tensor in operator form whose FIRST use inside a basis context is the conversion itself
+        try:
+            RT_f, ham_f = agg.get_RelaxationTensor(ta, relaxation_theory="standard_Redfield", as_operators=True)
+            with eigenbasis_of(ham_f):
+                RT_f.convert_2_tensor()
+                d_in = numpy.array(RT_f.data).copy()
+                ref_in = numpy.array(RT_t.data).copy()
+            d_out = numpy.array(RT_f.data).copy()
+            sct = float(numpy.abs(numpy.array(RT_t.data)).max())
+            dv_in, dv_out = float(numpy.abs(d_in - ref_in).max()), float(numpy.abs(d_out - numpy.array(RT_t.data)).max())
+            if dv_in > 1e-9 * sct or dv_out > 1e-9 * sct:
+                ck.fail("convert:ops-to-tensor:first-use-in-context", "an operator-form tensor converted inside eigenbasis_of before anything else was done with it there "
+                        "differs from the four-index tensor (inside / after leaving the context)", inp, [dv_in / sct, dv_out / sct])
+        except Exception as e:
+            ck.fail("raises:convert:first-use-in-context", "convert_2_tensor as first use inside a context raised %r" % (e,), inp)
         # ---- (c,d) time-dependent tensor ----------------------------------------------------------
         TD_t, hamt = agg.get_RelaxationTensor(ta, relaxation_theory="standard_Redfield", time_dependent=True)
         with eigenbasis_of(hamt):
